@@ -112,10 +112,12 @@ def rule_v2(ctx, pl: Pipeline) -> None:
         if st.attr != "mcs_search":
             continue
         for s in st.stores:
-            if issue in s.keytexts and isinstance(s.value, ast.Constant) and isinstance(s.value.value, str):
+            sv = ctx.ev.eval(s.value, s.env) if s.value is not None else frozenset()
+            sval = next(iter(sv)).value if len(sv) == 1 and next(iter(sv)).kind == "const" else None
+            if issue in s.keytexts and isinstance(sval, str):
                 only_not_solved = [a for a in s.atoms if not (a.kind == "truth" and a.op == "not" and solved in a.keys)]
-                ok = bool(s.value.value.strip()) and not only_not_solved and any(a.kind == "truth" and a.op == "not" for a in s.atoms)
-                ctx.instance("C03-V2", "MCSSearch.find seeds issue %r under %s" % (s.value.value, [repr(a) for a in s.atoms]), s.where(), ok=ok)
+                ok = bool(sval.strip()) and not only_not_solved and any(a.kind == "truth" and a.op == "not" for a in s.atoms)
+                ctx.instance("C03-V2", "MCSSearch.find seeds issue %r under %s" % (sval, [repr(a) for a in s.atoms]), s.where(), ok=ok)
                 if ok:
                     seeded = True
     if not seeded:
@@ -162,9 +164,11 @@ def rule_v2(ctx, pl: Pipeline) -> None:
 def rule_v3(ctx, pl: Pipeline) -> None:
     ctx.rule("C03-V3", "validators carry pairwise distinct method constants from {input-balanced, rule-based, mcs-based}; the method column has no other writer", 4)
     seen = {}
+    n_validators = 0
     for attr, inst in sorted(ctx.balancer.attr_inst.items()):
         if inst.cls.qualname != "synrbl.postprocess.Validator":
             continue
+        n_validators += 1
         m = inst.get("method")
         val = next(iter(m)).value if len(m) == 1 and next(iter(m)).kind == "const" else None
         ok = val in METHODS and val not in seen
@@ -174,7 +178,7 @@ def rule_v3(ctx, pl: Pipeline) -> None:
         elif val in seen:
             ctx.finding("C03-V3", "Balancer.%s:method" % attr, "synrbl/balancing.py:1", "method literal %r is shared with %s" % (val, seen[val]))
         seen.setdefault(val, attr)
-    ctx.require(len(seen) >= 3, "fewer than three validators are bound in Balancer.__init__")
+    ctx.require(n_validators >= 3, "fewer than three validators are bound in Balancer.__init__")
     sb = pl.solved_by_col.text
     stage_nodes = set()
     for st in pl.stages:
